@@ -123,7 +123,7 @@ CLAIMS = {
     "C10": {
         "engine": "V+S",
         "technique": "Verus on the real add_raw_templates / add_template_files / add_file (the immediately-invoked closure converted mechanically into a method, R31; the reversed undo loop as a pop loop, R32) against an undo-log specification over the abstract name->template map; rustc as frame checker for finalize_templates (its exit-bearing prefix re-typed to a shared borrow of *self)",
-        "text": "Proof of the FAILURE half for all batches and all prior registry states: when add_raw_templates / add_template_files return Err, the name->template map (every template with its derived data), the delimiters and every other field of the instance are exactly as before the call: each insertion is logged with the entry it replaced (faithful log, loop invariant undo_all(map, log) == map0), a failing parse or a failing finalize leaves the log consistent, and undoing the log from its last entry restores the map (duplicate names inside a batch included). finalize_templates returns Err only while *self is shared-borrowed (every `?`/`return` lies in a prefix that type-checks with `&Tera`; the commit statements that follow have no exit), so a failing finalize has written nothing. add_file: Err leaves the instance untouched, Ok inserts exactly one entry and reports what it replaced.",
+        "text": "Proof of the FAILURE half for all batches and all prior registry states: when add_raw_templates / add_template_files return Err, the name->template map (every template with its derived data), the delimiters and every other field of the instance are exactly as before the call: each insertion is logged with the entry it replaced (faithful log, loop invariant undo_all(map, log) == map0), a failing parse or a failing finalize leaves the log consistent, and undoing the log from its last entry restores the map (duplicate names inside a batch included). finalize_templates returns Err only while *self is shared-borrowed (every `?`/`return` lies in a prefix that type-checks with `&Tera`; the commit statements that follow have no exit), so a failing finalize has written nothing. add_file: Err leaves the instance untouched, Ok inserts exactly one entry and reports what it replaced. One clause of the success half: the last statements of finalize_templates REPLACE the component table by the one built in this call (nothing of the old table survives).",
         "note": "NOT decided (honest gap): the SUCCESS half (equivalence with a fresh instance given the same set), independence of order/grouping, and replacement being seen everywhere are properties of finalize_templates' results over HashMap iteration and of whole histories; no contract within reach expresses them. Assumed: std HashMap insert/remove contracts over an abstract map view, Template::new does not touch the registry (it has no access to it), no interior mutability in Tera, panics are not error returns. Verified at one instance of the generic parameters (Vec<(String, String)>, Vec<(&Path, Option<String>)>): the generic code is the same text.",
         "design_ref": "DESIGN.md section 0.3 (C10)",
     },
